@@ -499,6 +499,51 @@ theorem normDest_wf (d : MsgAddr) (h : AddrWF d) : AddrWF (normDest d) := by
   | extern b => exact h
   | var any wc b => exact h
 
+/-! ### the Transaction variable as a state machine -/
+
+theorem captureTx_ok (H : List UInt8 → List UInt8) (c : Cell) (t : TxCapture) (h : captureTx H c = .ok t) :
+    t.source = c ∧ c.reprHash H = .ok t.hash := by
+  unfold captureTx at h
+  cases hh : c.reprHash H with
+  | ok x => rw [hh] at h; simp only [Outcome.bind] at h; injection h with h; subst h; exact ⟨rfl, rfl⟩
+  | err e => rw [hh] at h; cases h
+  | panic e => rw [hh] at h; cases h
+
+theorem run_append (H : List UInt8 → List UInt8) (v : TxVar) (a b : List TxOp) :
+    TxVar.run H v (a ++ b) = TxVar.run H (TxVar.run H v a) b := by
+  simp [TxVar.run, List.foldl_append]
+
+/-- after any script, the variable holds the capture of the last successfully decoded cell (or is unchanged when the
+script decodes nothing) -/
+theorem run_lastDecoded (H : List UInt8 → List UInt8) (ops : List TxOp) (v : TxVar) :
+    (match lastDecoded H ops with
+     | some c => ∃ t, TxVar.run H v ops = some t ∧ t.source = c ∧ c.reprHash H = .ok t.hash
+     | none => TxVar.run H v ops = v) := by
+  induction ops generalizing v with
+  | nil => rfl
+  | cons op rest ih =>
+    have hrun : TxVar.run H v (op :: rest) = TxVar.run H (TxVar.step H v op) rest := rfl
+    rw [hrun]
+    have ih' := ih (TxVar.step H v op)
+    simp only [lastDecoded]
+    cases hl : lastDecoded H rest with
+    | some c => rw [hl] at ih'; exact ih'
+    | none =>
+      rw [hl] at ih'
+      simp only at ih' ⊢
+      rw [ih']
+      cases op with
+      | sourceBoc => rfl
+      | hash => rfl
+      | decode c =>
+        cases hc : captureTx H c with
+        | ok t =>
+          obtain ⟨h1, h2⟩ := captureTx_ok H c t hc
+          simp only [Outcome.isOk, if_true, TxVar.step, hc]
+          exact ⟨t, rfl, h1, h2⟩
+        | err e => simp [Outcome.isOk, TxVar.step, hc]
+        | panic e => simp [Outcome.isOk, TxVar.step, hc]
+
 theorem normDest_idem (d : MsgAddr) : normDest (normDest d) = normDest d := by cases d <;> rfl
 
 end Tongo.Message
